@@ -37,6 +37,7 @@
     (refuted in general: C01_converges_refuted_drop_unique); (3) SQL text and SQLite itself: the engine
     is a model, tied to real go-sqlite3 by the correspondence stages. *)
 From Coq Require Import List NArith ZArith Bool Arith.
+From Atlas Require Sqlite.ConvergeTable.
 From Atlas Require Import Base.Bytes Diff.Schema Diff.DiffModel Diff.DiffSqlite
   Sqlite.PlanModel Sqlite.PlanProofs Sqlite.EngineModel Sqlite.InspectModel Sqlite.ConvergeDefs Sqlite.ConvergeStep
   Sqlite.Converge Sqlite.ConvergeSupported Sqlite.EngineRowsProofs Sqlite.ConvergeRows Sqlite.ConvergeParts Sqlite.ConvergeSyntactic
@@ -228,13 +229,27 @@ Example C01_ex_second_plan : synced nm (run empty_db ex_A) ex_A.
 Proof. vm_compute. reflexivity. Qed.
 
 (** *** where the full statement fails *)
-(** composite primary key listed in another order than the columns: PRIMARY KEY (b, a) *)
+(** composite primary key listed in another order than the columns: PRIMARY KEY (b, a).  FIXED in the Go code
+    (fix "sqlite inspection orders the parts of a composite primary key by their position in the key", known
+    findings C01-pk-order = C03-pk-order): [inspect_pk] now returns the parts in key order, the former witness
+    is inside [supported] and converges.  The second theorem is about the OLD inspection ([inspect_pk_old]:
+    parts in column order): the key it returned for this table differs from the desired one for ever. *)
 Definition w_pk_order : xschema :=
   [tbl n_t [col n_a T_int 2 false; col n_b T_int 2 false] (Some (pk_of [cpart 1 n_b false; cpart 2 n_a false])) [] [] []].
-Theorem C01_converges_refuted_pk_order :
-  exists B d', apply_plan nm empty_db B = Some (Ok d') /\ ~ synced nm d' B.
-Proof. exists w_pk_order. eexists. split; [vm_compute; reflexivity|]. vm_compute. discriminate. Qed.
-Print Assumptions C01_converges_refuted_pk_order.
+Theorem C01_converges_pk_order_fixed :
+  supported empty_db w_pk_order = true /\
+  exists d', apply_plan nm empty_db w_pk_order = Some (Ok d') /\ synced nm d' w_pk_order.
+Proof.
+  assert (S : supported empty_db w_pk_order = true) by (vm_compute; reflexivity).
+  split; [exact S|]. destruct (converges_supported nm empty_db w_pk_order S) as [p [d' [P [E Y]]]].
+  exists d'. split; [|exact Y]. unfold apply_plan. rewrite P, E. reflexivity.
+Qed.
+Print Assumptions C01_converges_pk_order_fixed.
+Theorem C01_pk_order_old_code_refuted :
+  forall t, In t w_pk_order ->
+  ConvergeTable.pk_part (inspect_pk_old (x_t t)) (t_pk (x_t t)) <> [] /\ ConvergeTable.pk_part (inspect_pk (x_t t)) (t_pk (x_t t)) = [].
+Proof. intros t [<-|[]]. split; [vm_compute; discriminate|vm_compute; reflexivity]. Qed.
+Print Assumptions C01_pk_order_old_code_refuted.
 
 (** PRIMARY KEY (a DESC) *)
 Definition w_pk_desc : xschema := [tbl n_t [col n_a T_text 3 false] (Some (pk_of [cpart 1 n_a true])) [] [] []].
